@@ -5,7 +5,7 @@ from . import core, sketchcheck
 from .sketchgen import Builder, mapspec, STORES, rand_values, spec_list
 from .core import f2h
 
-KINDS = STORES + ["pag", "dense", "low:4", "high:4", "low:32", "high:64"]
+KINDS = STORES + ["pag", "dense", "low:4", "high:4", "low:32", "high:64", "high:100", "low:100", "high:100"]          # 100: the array of such a store is longer than its limit
 
 def history(rng, b, regs, spec, n, lo, hi, twin=True):
     """Apply the same random operations to every register in regs."""
@@ -45,6 +45,8 @@ def build(rng, facts, name):
         b.emit("kobs c", lambda a, env: None if a.startswith("count=0 zero=0 empty=1 min=- max=- pos[total=0 empty=1 min=- max=- bins=] neg[total=0 empty=1 min=- max=- bins=]") else "a cleared sketch reports %r" % a)
         fresh = "f%d" % cyc
         b.knew(fresh, spec, kp, kn, exact)
+        # ... and encodes like a new one: nothing of the earlier pages, ranges or statistics reaches the wire
+        om = rng.choice([0, 1]); b.emit("kenc ec c %d" % om, "ok"); b.emit("kenc ef %s %d" % (fresh, om), "ok"); jh = b.emit("bhex ef"); b.emit("bhex ec", ("same", jh))
         cc = None
         if rng.random() < 0.5 and cyc == cycles - 1:
             cc, fcc = "cc", "fcc"; b.kcopy(cc, "c"); b.knew(fcc, spec, kp, kn, exact)
